@@ -47,12 +47,12 @@ type recvReq struct {
 }
 
 type scriptedReceiver struct {
-	mu      sync.Mutex
-	reqs    []recvReq
-	srv     *httptest.Server
-	failNth map[int]int // request sequence number -> status to answer
-	early   map[int]int // request sequence number -> status to answer before the body has been read
-	delay   time.Duration
+	mu         sync.Mutex
+	reqs       []recvReq
+	srv        *httptest.Server
+	failNth    map[int]int // request sequence number -> status to answer
+	early      map[int]int // request sequence number -> status to answer before the body has been read
+	delay      time.Duration
 	nEarly     int
 	earlyPaths []string
 	// slowOnce: the first request whose path matches is answered this late (a receiver that stalls once)
@@ -789,7 +789,6 @@ func c16Check(c *Ctx, s *app.Server, a *app.VerifAsset, cf string, now int, dur,
 		}
 	}
 }
-
 
 // c16RealTime: a session on the wall clock (no test instant) with $Time$ addresses against a receiver that stalls once for
 // longer than two segment durations: the sender catches up afterwards — and still delivers every segment once, in order.
